@@ -172,3 +172,47 @@ func vDocRefsResolve(sw *spec.Swagger) bool {
 	}
 	return ok
 }
+
+func init() { vRegister("VerifC10EmbeddedTexts", VerifC10EmbeddedTexts) }
+
+// C10/C09 (planning): whatever the two documents look like, the texts makeCodegenApp hands to the
+// embedded-spec template, put between back-quotes as the template does, are Go string expressions
+// that evaluate to exactly the marshalled original and flattened documents - each on its own.
+func VerifC10EmbeddedTexts() {
+	origText := vBytes("original.text", 3)
+	flatText := vBytes("flattened.text", 3)
+	sw := vBaseSpec()
+	op := &spec.Operation{}
+	op.ID = "getIt"
+	op.Responses = vOKResponses()
+	vAddOp(sw, "GET", "/x", op)
+	var wantOrig, wantFlat string
+	if vSymbolic() {
+		// the marshalled documents are arbitrary texts (encoding/json is not modelled)
+		wantOrig, wantFlat = origText, flatText
+		vStubReturnN("encoding/json.MarshalIndent", 0, []byte(origText), nil)
+		vStubReturnN("encoding/json.MarshalIndent", 1, []byte(flatText), nil)
+	} else {
+		sw.Info.Description = origText
+	}
+	ag := vAppGenerator(sw)
+	if ag == nil {
+		return
+	}
+	if !vSymbolic() {
+		// the flattened document differs from the original one (as after bundling $ref'd files)
+		ag.SpecDoc.Spec().Info.Description = flatText
+		bo, _ := json.MarshalIndent(ag.SpecDoc.OrigSpec(), "", "  ")
+		bf, _ := json.MarshalIndent(ag.SpecDoc.Spec(), "", "  ")
+		wantOrig, wantFlat = string(bo), string(bf)
+	}
+	app, err := ag.makeCodegenApp()
+	vCover("planned")
+	if err != nil {
+		return
+	}
+	gotOrig, ok1 := vEvalGoStringExpr("`" + string(app.SwaggerJSON) + "`")
+	gotFlat, ok2 := vEvalGoStringExpr("`" + string(app.FlatSwaggerJSON) + "`")
+	vAssert(ok1 && gotOrig == wantOrig, "the embedded original document is not a Go string expression for the marshalled document")
+	vAssert(ok2 && gotFlat == wantFlat, "the embedded flattened document is not a Go string expression for the marshalled document")
+}
